@@ -151,6 +151,7 @@ def apply_op(world, tr, o, root):
             return
         t = cands[0]
         world.op('rerun_workflow', t['id'], reset=o.get('reset', True), skip=(name == 'skip'))
+        world.forget_broken()
     elif name == 'restart':
         world.restart()
     elif name == 'poll':
